@@ -139,6 +139,9 @@ EXTRA_KW = [
     "env=zz_o.environ",
     "args='ls'",
     "cmd=['chmod', '*']",
+    "bufsize=-zz_n",               # unary operators on names / literals among the other arguments
+    "timeout=-1, bufsize=+zz_n",
+    "umask=~zz_m, close_fds=not zz_c",
 ]
 
 LAYOUTS = ["single", "kw_line", "value_line", "leading_kw_star"]
@@ -181,7 +184,7 @@ def build_call(callee, args, shell, extra, layout):
     raise ValueError(layout)
 
 
-WRAPS = ["stmt", "func_with", "nested_arg", "assign_tail"]
+WRAPS = ["stmt", "func_with", "nested_arg", "assign_tail", "samename_method", "samename_inner_def"]
 
 
 def wrap(imports, call, how):
@@ -197,6 +200,14 @@ def wrap(imports, call, how):
         body = ["print(1, %s, sep='')" % call]
     elif how == "assign_tail":
         body = ["zz_r = %s.zz_m().zz_n" % call]
+    elif how in ("samename_method", "samename_inner_def"):
+        # a method / inner function that merely shares the callee's local name; the call itself follows at module level
+        import re as _re
+        nm = _re.match(r"[A-Za-z_][A-Za-z_0-9]*", call).group(0)
+        if how == "samename_method":
+            body = ["class ZzJob:", "    def %s(self, zz_v):" % nm, "        return zz_v", "zz_r = " + call]
+        else:
+            body = ["def zz_outer():", "    def %s(zz_v):" % nm, "        return zz_v", "    return 1", "zz_r = " + call]
     else:
         raise ValueError(how)
     return "\n".join(pre + body) + "\n"
